@@ -404,6 +404,7 @@ class Observer:
                         d.zero = [k]
                     if ptype == "0rtt":
                         pkt["zsecret"] = k.secret          # which early secret protects it (two exist after a Retry)
+                        pkt["zver"] = k.version            # ... and the version whose labels derived the key that opened it
                     elif ptype == "initial" and self.follow_retry and k is not cands[0]:
                         self.initial_dcid = dcid
                     break
